@@ -8,36 +8,37 @@ Import ListNotations.
 Open Scope string_scope.
 
 (* Two-run hyperproperty, for ANY tables without an exempt empty key, any flags outside the
-   selective mode, field-name redaction off, and any leaf actions whose string / number / boolean
+   selective mode - field-name redaction (--redactFieldNames) on or off, for any configured prefixes -
+   and any leaf actions whose string / number / boolean
    result does not depend on the original value (placeholder mode): two log entries that pass the
    gate and are related by [entry_sim] - identical except, inside the query-bearing values of their
    command documents, for the CONTENTS of leaves on clear paths, each leaf keeping its lexical class
    (string not starting with '$' with the same e-mail-shape bit; any number under --redactNumbers;
    any boolean under --redactBooleans) - are mapped to the SAME output entry. *)
 Theorem C02_noninterference : forall tb cs c A e e',
-  re c = None -> ~ In ("", Exempt) (all_entries tb) -> eager c = [] ->
+  re c = None -> ~ In ("", Exempt) (all_entries tb) ->
   (forall s s' ph, a_str A s ph = a_str A s' ph) -> (forall n n', a_num A n = a_num A n') -> (forall b b', a_bool A b = a_bool A b') ->
   gate e = true -> entry_sim tb c e e' ->
   redact_entry tb cs c A e = redact_entry tb cs c A e'.
-Proof. intros tb cs c A e e' H1 H2 H3 H4 H5 H6. exact (redact_entry_ni tb cs c A H1 H2 H4 H5 H6 H3 e e'). Qed.
+Proof. intros tb cs c A e e' H1 H2 H4 H5 H6. exact (redact_entry_ni tb cs c A H1 H2 H4 H5 H6 e e'). Qed.
 Print Assumptions C02_noninterference.
 
 (* the placeholder-mode actions of the tool satisfy the independence hypotheses, so the emitted
    BYTES are identical (printing is a function of the tree) *)
 Theorem C02_bytes : forall tb cs c e e',
-  re c = None -> ~ In ("", Exempt) (all_entries tb) -> eager c = [] -> gate e = true -> entry_sim tb c e e' ->
+  re c = None -> ~ In ("", Exempt) (all_entries tb) -> gate e = true -> entry_sim tb c e e' ->
   print (redact_tree tb cs c (real_actions cs c None) (JObj e)) = print (redact_tree tb cs c (real_actions cs c None) (JObj e')).
 Proof.
-  intros tb cs c e e' H1 H2 H3 Hg Hs. cbn [redact_tree]. f_equal. f_equal.
+  intros tb cs c e e' H1 H2 Hg Hs. cbn [redact_tree]. f_equal. f_equal.
   apply C02_noninterference; auto.
 Qed.
 Print Assumptions C02_bytes.
 
-(* the walker-level statement, for every mode the walkers are used in *)
+(* the walker-level statement, for every mode the walkers are used in (field-name mode included) *)
 Theorem C02_walkers : forall tb cs c A t t' m,
   re c = None -> ~ In ("", Exempt) (all_entries tb) ->
   (forall s s' ph, a_str A s ph = a_str A s' ph) -> (forall n n', a_num A n = a_num A n') -> (forall b b', a_bool A b = a_bool A b') ->
-  applicable m t -> mode_rfn m = false -> mode_ok tb m -> guard tb m -> csim tb c is_email t t' ->
+  applicable m t -> mode_ok tb m -> guard tb m -> csim tb c is_email t t' ->
   walk tb cs c is_email A m t = walk tb cs c is_email A m t'.
 Proof. intros tb cs c A t t' m H1 H2 H3 H4 H5. exact (walk_ni tb cs c is_email A H1 H2 H3 H4 H5 t t' m). Qed.
 Print Assumptions C02_walkers.
